@@ -1,43 +1,67 @@
 (* C18 -- undeclared_variables never omits a variable the template reads.
-   Statements only; proofs in MJ.C18.Proofs (tracker facts in C18.Tracker, run-time facts in C18.Runtime).
+   Statements only; proofs in MJ.C18.Proofs (tracker facts in C18.Tracker / C18.NTracker, run-time
+   facts in C18.Runtime, interpreter agreement in C18.XAgree).
 
    Lang/Meta.v mirrors compiler/meta.rs (AssignmentTracker, track_walk, tracker_visit_expr,
-   find_macro_closure) after the C18 fixes; Lang/Interp.v is the reference interpreter, whose state
-   records in [s_asks] every key the render context was asked for (Context::load: frames
-   innermost-out - locals, `loop`, closure, render context - then globals).  The check ties both to
-   the engine on generated programs (tools/props/C18.py). *)
-From MJ Require Import Common.Base Lang.Syntax Lang.Meta Lang.Interp C18.Old C18.Tracker C18.Runtime C18.Proofs.
+   find_macro_closure) after the C18 fixes; C18/NMeta.v mirrors its nested mode (assign_nested).
+   C18/XInterp.v is the reference interpreter of Lang/Interp.v with an outcome that keeps, on
+   failure, the context lookups recorded up to the failure ([run_asks], [asks_of]), and with a
+   meaning for slices e[a:b:c] and attribute assignments {% set x.attr = e %} (written ESlice and
+   SSetAttr with the constructors of the core syntax, so that the tracker visits their sub-terms in
+   the order meta.rs and codegen.rs do).  Its state records every key the render context is asked for
+   (Context::load: frames innermost-out - locals, `loop`, closure, render context - then globals).
+   The check ties all of this to the engine on generated programs (tools/props/C18.py). *)
+From MJ Require Import Common.Base Lang.Syntax Lang.Meta Lang.Interp
+     C18.Old C18.Tracker C18.Runtime C18.XInterp C18.XAgree C18.NMeta C18.NTracker C18.Proofs.
 
-(* Soundness of the static report: for every program of the core fragment (expressions, if/elif/else,
-   for with filter / else / break / continue, set, set blocks, with, macros with defaults, keyword
-   arguments and caller, call blocks, filter blocks, autoescape), every undefined-behaviour mode,
-   every render context whose values contain no macro objects, and every amount of fuel: every key a
-   completed render asked the context for is in [find_undeclared] (globals such as `range` are asked
-   and reported too).  Stated for renders that finish (the interpreter does not return the lookups of
-   a failed render; failing renders are covered on the implementation by the check).
+(* Soundness of the static report, for EVERY outcome of the render: for every program (expressions
+   incl. slices, if/elif/else, for with filter / else / break / continue, set, attribute assignment,
+   set blocks, with, macros with defaults, keyword arguments and caller, call blocks, filter blocks,
+   autoescape), every undefined-behaviour mode, every render context whose values contain no macro
+   objects and every amount of fuel: every key the render asked the context for - until it finished
+   or until it failed - is in [find_undeclared] (globals such as `range` are asked and reported too).
    Invariant of the proof (Runtime.Inv): every name the tracker regards as assigned is already
    reported or bound locally at run time, on every path reaching the program point. *)
-Theorem undeclared_sound : forall (c : cfg) (fuel : nat) (body : list stmt) (s : st),
+Theorem undeclared_sound : forall (c : cfg) (fuel : nat) (body : list stmt),
   plain_context c = true ->
-  Interp.run c fuel body = Ok s ->
-  forall x, In x (s_asks s) -> In x (find_undeclared body).
+  forall x, In x (asks_of (run_asks c fuel body)) -> In x (find_undeclared body).
 Proof. exact undeclared_sound_proof. Qed.
 
-(* Failing renders, as far as the interpreter exposes them: when the render fails (or stops) inside a
-   later top-level statement, everything the completed statements before it asked for is in the report
-   of the whole template. *)
-Theorem undeclared_sound_prefix : forall (c : cfg) (fuel : nat) (done rest : list stmt) (s : st),
-  plain_context c = true -> Interp.run c fuel done = Ok s ->
-  forall x, In x (s_asks s) -> In x (find_undeclared (done ++ rest)).
-Proof. exact undeclared_sound_prefix_proof. Qed.
+(* the error-carrying interpreter only adds information: when the shared interpreter finishes, it
+   finishes in the same state ... *)
+Theorem xrun_agrees : forall (c : cfg) (fuel : nat) (body : list stmt) (s : st),
+  Interp.run c fuel body = Ok s -> run_asks c fuel body = OkE s.
+Proof. exact xrun_agrees_proof. Qed.
+
+(* ... so the report is sound for the shared interpreter (the one C03 compares with the engine) too *)
+Theorem undeclared_sound_interp : forall (c : cfg) (fuel : nat) (body : list stmt) (s : st),
+  plain_context c = true -> Interp.run c fuel body = Ok s ->
+  forall x, In x (s_asks s) -> In x (find_undeclared body).
+Proof. exact undeclared_sound_interp_proof. Qed.
+
+(* Nested mode, `undeclared_variables(true)`: every key the render asked the context for - whatever
+   its outcome - is the first segment of a reported dotted name. *)
+Theorem undeclared_nested_sound : forall (c : cfg) (fuel : nat) (body : list stmt),
+  plain_context c = true ->
+  forall x, In x (asks_of (run_asks c fuel body)) -> exists p, In p (find_undeclared_nested body) /\ fst p = x.
+Proof. exact nested_sound_proof. Qed.
+
+(* its tracker-only core: what the flat walk reports, the nested walk reports as a first segment *)
+Theorem flat_report_in_nested_report : forall body x,
+  mem x (find_undeclared body) = true -> heads_mem x (find_undeclared_nested body) = true.
+Proof. exact flat_in_nested. Qed.
 
 (* The part of the argument that concerns find_macro_closure: a macro value is well formed when its
    closure holds every name the fresh tracker found free in the macro; calling such a macro never asks
-   the render context for anything, whatever its body does. *)
-Theorem macro_call_asks_nothing : forall (c : cfg) fuel esc s mc cl args kwargs v s',
+   the render context for anything, whether the call finishes or fails. *)
+Theorem macro_call_asks_nothing : forall (c : cfg) fuel esc s mc cl args kwargs,
   plain_context c = true -> sgood s -> mgood (s_clos s) mc cl ->
   Forall (vgood (s_clos s)) args -> Forall (fun kv => vgood (s_clos s) (snd kv)) kwargs ->
-  call_macro c fuel esc s mc cl args kwargs = Ok (v, s') -> s_asks s' = s_asks s.
+  match xcall_macro c fuel esc s mc cl args kwargs with
+  | OkE (_, s') => s_asks s' = s_asks s
+  | ErrE _ a => a = s_asks s
+  | _ => True
+  end.
 Proof. exact macro_call_asks_nothing_proof. Qed.
 
 (* ... and what Enclose asks for when the macro is declared is reported by the surrounding walk: a name
@@ -47,23 +71,29 @@ Theorem closure_names_reported : forall ps ds body t x,
   mem x (t_out (visit_macro true ps ds body (t_push t))) = true.
 Proof. exact closure_in_context. Qed.
 
-(* The tracker as it was before the fixes (C18/Old.v) is refuted on every construct whose visit order
-   was wrong - {% set x = x %}, {% with x = x %}, {% set x %}{{ x }}{% endset %}, {% macro m(x=x) %},
+(* The tracker as it was before the fixes (C18/Old.v) is refuted on every construct it got wrong -
+   {% set x = x %}, {% with x = x %}, {% set x %}{{ x }}{% endset %}, {% macro m(x=x) %},
    {% macro m(y, x=y) %}, a macro that mentions its own name, {% for x in loop %},
-   {% for x in [1] if loop %}, {% autoescape x %} - and the fixed tracker is not. *)
+   {% for x in [1] if loop %}, {% autoescape x %}, {{ x[1:2]|length }}, {% set x.attr = 1 %} (a
+   failing render) - and the fixed tracker is not. *)
 Theorem undeclared_refuted_before_fix :
   forallb (asked_not_reported find_undeclared_old cfg0 50) refutation_programs = true /\
   forallb (fun p => negb (asked_not_reported find_undeclared cfg0 50 p)) refutation_programs = true.
 Proof. exact refuted_before_fix_proof. Qed.
 
-(* non-vacuity of undeclared_sound: a program with a set, a macro whose default reads the context, a
-   filtered loop and a call block, on a context of plain values, renders and asks five times *)
+(* non-vacuity: a render that finishes (set, macro whose default reads the context, filtered loop, call
+   block, reversed slice) and asks six times; a render that fails in its second statement (attribute
+   assignment) after asking three times *)
 Example undeclared_sound_nonvacuous :
-  exists s, Interp.run demo_ctx 60 demo_body = Ok s /\ plain_context demo_ctx = true /\ length (s_asks s) = 5%nat.
-Proof. exact demo_runs. Qed.
+  (exists s, run_asks demo_ctx 60 demo_body = OkE s /\ plain_context demo_ctx = true /\ length (s_asks s) = 6%nat) /\
+  (exists a, run_asks demo_ctx 60 demo_fail = ErrE E_InvalidOperation a /\ length a = 3%nat).
+Proof. split; [exact demo_runs|exact demo_fails]. Qed.
 
 Print Assumptions undeclared_sound.
-Print Assumptions undeclared_sound_prefix.
+Print Assumptions xrun_agrees.
+Print Assumptions undeclared_sound_interp.
+Print Assumptions undeclared_nested_sound.
+Print Assumptions flat_report_in_nested_report.
 Print Assumptions macro_call_asks_nothing.
 Print Assumptions closure_names_reported.
 Print Assumptions undeclared_refuted_before_fix.
